@@ -745,4 +745,51 @@ def iteration_order(chk, prog, rule='R6'):
             not f.cfg.must_pass_through(lambda nn: nn in calls)
         chk.check(ok, rule, f.name, '%s::%s steps with %s() on every path' % (cls, f.short, want), f.loc(),
                   'calls: %s' % [(c.get('callee') or '').split('::')[-1] for c in calls])
+        # what the operator hands back: the prefix forms return the stepped iterator itself, the postfix forms a copy
+        # of the iterator taken BEFORE the step (`*it++` reads the position the iterator is leaving)
+        rets = [x for x in f.walk() if x.get('k') == 'ReturnStmt']
+        prefix = (f.d.get('ret') or '').rstrip().endswith('&')
+        if prefix:
+            ok = bool(rets) and all(_is_deref_this(_strip_copy(children(r)[0])) for r in rets if children(r))
+            chk.check(ok, rule, f.name, 'prefix %s::%s returns the stepped iterator itself' % (cls, f.short), f.loc())
+        else:
+            ok, why = bool(rets) and len(calls) == 1, 'no return / step call'
+            for r in rets:
+                v = _strip_copy(children(r)[0]) if children(r) else {}
+                if v.get('k') != 'DeclRefExpr' or v['ref'].get('sto') != 'local':
+                    ok, why = False, 'line %s returns something else than a local copy' % r.get('l')
+                    break
+                did = v['ref'].get('did')
+                decl = [(ds, d) for ds in f.walk() if ds.get('k') == 'DeclStmt' for d in ds.get('decls', [])
+                        if d.get('did') == did]
+                if len(decl) != 1 or not _is_deref_this(_strip_copy(decl[0][1].get('init') or {})):
+                    ok, why = False, 'the returned local is not a copy of *this'
+                    break
+                others = [x for x in f.walk() if x.get('k') == 'DeclRefExpr' and x['ref'].get('did') == did and
+                          not any(x is y for rr in rets for y in walk(rr))]
+                if others:
+                    ok, why = False, 'the copy is used (possibly modified) before it is returned'
+                    break
+                if calls and not f.cfg.node_dominates(decl[0][0], calls[0]):
+                    ok, why = False, 'the copy is not taken before the step on every path'
+                    break
+            chk.check(ok, rule, f.name, 'postfix %s::%s returns a copy taken before the step' % (cls, f.short), f.loc(),
+                      '' if ok else why)
     chk.require(n_ops >= 8, 'iterator step operators instantiated: %d' % n_ops)
+
+
+def _strip_copy(n):
+    """strip casts, copy/move constructions, temporaries and parentheses around an expression"""
+    while True:
+        n = strip_all_casts(n)
+        k = n.get('k')
+        if k in ('CXXConstructExpr', 'MaterializeTemporaryExpr', 'CXXBindTemporaryExpr', 'ExprWithCleanups',
+                 'ParenExpr', 'CXXFunctionalCastExpr') and len(children(n)) == 1:
+            n = children(n)[0]
+            continue
+        return n
+
+
+def _is_deref_this(n):
+    return n.get('k') == 'UnaryOperator' and n.get('op') == '*' and \
+        strip_all_casts(children(n)[0]).get('k') == 'CXXThisExpr'
